@@ -147,8 +147,14 @@ def call_target(target, *args, **kwargs):
     return obj(*args, **kwargs)
 
 
-def replay(c: api.Contract, inputs: dict):
-    """inputs: param name -> model value. Returns dict with native outcome and which clauses fail."""
+def replay(c: api.Contract, inputs: dict, trusted_inputs=False):
+    """inputs: param name -> model value. Returns dict with native outcome and which clauses fail.
+    A contract marked no_selftest=True (process-level effects, file-system walks, whole-project linting) is NEVER run on
+    solver models or generated inputs -- a generated path such as "/" would lint the real file system; only inputs the
+    contract author supplied (witness_*(), `--replay` of a recorded file) are run (trusted_inputs=True)."""
+    if c.opts.get("no_selftest") and not trusted_inputs:
+        return {"target": c.target, "confirmed": False, "failed_clauses": [],
+                "reason": "contract opts out of native runs on model / generated inputs (no_selftest)"}
     mod, owner, obj = resolve_target(c.target)
     fn = obj.__func__ if isinstance(obj, (staticmethod, classmethod)) else (obj.fget if isinstance(obj, property) else obj)
     sig = [p for p in inspect.signature(fn).parameters]
